@@ -1678,3 +1678,62 @@ func c18r15(rc *core.RC) {
 		rc.Unknown("json.HTMLEscape/writes", fd.Pos(), "no Write to dst found")
 	}
 }
+
+// ---- C18.R16 a multi-byte character is stepped over only where its kind is looked at ----
+
+// decodeRuneInString tells a valid character from an invalid one and from U+2028 / U+2029. The string writers of
+// string.go call it for every lead byte and dispatch on the answer (replace, escape, copy). A loop that calls it to
+// step over characters without that dispatch lets the two separators through unescaped (HTMLEscape and Marshal write
+// a raw U+2028 behind any multi-byte character). Obligation: every call of decodeRuneInString is in a function whose
+// body holds a switch with a case for lineSepState or paragraphSepState, or (the writers without HTML escaping) for
+// runeErrorState only where the function's name does not say HTML.
+func c18r16(rc *core.RC) {
+	p := rc.P
+	n := 0
+	for _, fd := range p.Funcs("encoder") {
+		if fd.Body == nil {
+			continue
+		}
+		info := p.Info(fd)
+		calls := 0
+		var first *ast.CallExpr
+		ast.Inspect(fd.Body, func(m ast.Node) bool {
+			if c, ok := m.(*ast.CallExpr); ok && core.CalleeName(info, c) == "encoder.decodeRuneInString" {
+				calls++
+				if first == nil {
+					first = c
+				}
+			}
+			return true
+		})
+		if calls == 0 {
+			continue
+		}
+		n++
+		rc.Touch(p.FuncName(fd))
+		key := p.FuncName(fd) + "/decoded-characters-are-dispatched-on"
+		cases := map[string]bool{}
+		ast.Inspect(fd.Body, func(m ast.Node) bool {
+			if cc, ok := m.(*ast.CaseClause); ok {
+				for _, e := range cc.List {
+					if id, isID := core.Unparen(e).(*ast.Ident); isID {
+						cases[id.Name] = true
+					}
+				}
+			}
+			return true
+		})
+		html := strings.Contains(fd.Name.Name, "HTML")
+		switch {
+		case cases["lineSepState"] || cases["paragraphSepState"]:
+			rc.OK(key, first.Pos(), "the state of every decoded character goes through a switch with the separator cases")
+		case !html && cases["runeErrorState"] && !strings.Contains(strings.ToLower(fd.Name.Name), "skip"):
+			rc.OK(key, first.Pos(), "a writer without HTML escaping: invalid characters are replaced, the separators are copied")
+		default:
+			rc.Bad(key, first.Pos(), "%s steps over multi-byte characters with decodeRuneInString and has no case for lineSepState / paragraphSepState: U+2028 and U+2029 behind another multi-byte character are taken for ordinary characters and written raw where HTML escaping is on", p.FuncName(fd))
+		}
+	}
+	if n < 2 {
+		rc.Unknown("encoder/decodeRuneInString-callers", token.NoPos, "found %d functions that call decodeRuneInString, fewer than the 2 confirmed by hand", n)
+	}
+}
